@@ -1,6 +1,7 @@
 package main
 
 import (
+	"sort"
 	"fmt"
 	"go/token"
 	"go/types"
@@ -617,5 +618,565 @@ func init() {
 		for _, o := range c.R.Obls {
 			fmt.Printf("%s %s %s\n    %s\n", o.Verdict, o.Key, o.Pos, o.Witness)
 		}
+	}
+}
+
+func init() {
+	extraDebug["constidx"] = func(p *Program) {
+		total, unguarded := 0, 0
+		byFn := map[string]int{}
+		for _, fn := range p.Funcs {
+			if !isSubject(fn) {
+				continue
+			}
+			fn := fn
+			eachInstr(fn, func(b *ssa.BasicBlock, _ int, i ssa.Instruction) {
+				var x, idx ssa.Value
+				switch v := i.(type) {
+				case *ssa.IndexAddr:
+					x, idx = v.X, v.Index
+				case *ssa.Index:
+					x, idx = v.X, v.Index
+				default:
+					return
+				}
+				if typeNameOf(x.Type()) != "Array" {
+					return
+				}
+				k, ok := constInt(idx)
+				if !ok {
+					return
+				}
+				total++
+				if constIndexGuarded(fn, b, x, k) || madeHere(x) || constIndexGuardedAtCallers(p, fn, x, k) {
+					return
+				}
+				unguarded++
+				byFn[FuncID(fn)]++
+			})
+		}
+		fmt.Printf("constant indexes into types.Array: %d, without a dominating length test in the function: %d in %d functions\n", total, unguarded, len(byFn))
+		var fs []string
+		for f, n := range byFn {
+			fs = append(fs, fmt.Sprintf("%3d %s", n, f))
+		}
+		sort.Strings(fs)
+		for _, f := range fs {
+			fmt.Println(f)
+		}
+	}
+}
+
+// constIndexGuarded: a comparison of len(x) with a constant on a dominating edge makes x[k] safe.
+func constIndexGuarded(fn *ssa.Function, blk *ssa.BasicBlock, x ssa.Value, k int64) bool {
+	ok := false
+	eachInstr(fn, func(_ *ssa.BasicBlock, _ int, i ssa.Instruction) {
+		if ok {
+			return
+		}
+		b, isB := i.(*ssa.BinOp)
+		if !isB {
+			return
+		}
+		var lenSide, other ssa.Value
+		op := b.Op
+		if l := lenArgOf(b.X); l != nil {
+			lenSide, other = l, b.Y
+		} else if l := lenArgOf(b.Y); l != nil {
+			lenSide, other = l, b.X
+			op = mirrorOp(op)
+		} else {
+			return
+		}
+		if !sameSlice(lenSide, x) && valueKey(lenSide) != valueKey(x) {
+			return
+		}
+		n, isC := constInt(other)
+		if !isC {
+			return
+		}
+		// edges on which len(x) > k holds
+		for _, want := range []bool{true, false} {
+			holds := false
+			o := op
+			if !want {
+				o = negateOp(o)
+			}
+			switch o {
+			case token.EQL:
+				holds = n > k
+			case token.GTR:
+				holds = n >= k
+			case token.GEQ:
+				holds = n > k
+			case token.NEQ:
+				holds = n == 0 && k == 0 // len(x) != 0
+			}
+			if !holds {
+				continue
+			}
+			for _, e := range condEdges(b, want) {
+				if edgeDominates(e, blk) {
+					ok = true
+				}
+			}
+		}
+	})
+	return ok
+}
+
+// madeHere: the array is built in this function (a composite literal or make), not taken from the document.
+func madeHere(x ssa.Value) bool {
+	for _, l := range valueLeaves(x) {
+		switch v := l.(type) {
+		case *ssa.Slice:
+			if _, ok := v.X.(*ssa.Alloc); ok {
+				continue
+			}
+			return false
+		case *ssa.MakeSlice:
+			continue
+		case *ssa.ChangeType:
+			if !madeHere(v.X) {
+				return false
+			}
+		case *ssa.Call:
+			if b, ok := v.Call.Value.(*ssa.Builtin); ok && b.Name() == "append" {
+				continue
+			}
+			return false
+		default:
+			return false
+		}
+	}
+	return true
+}
+
+var constIdxCG *CG
+
+// constIndexGuardedAtCallers: x is a parameter and every static call site passes an array whose length was tested there.
+func constIndexGuardedAtCallers(p *Program, fn *ssa.Function, x ssa.Value, k int64) bool {
+	prm, ok := x.(*ssa.Parameter)
+	if !ok {
+		return false
+	}
+	idx := paramIndex(fn, prm)
+	if idx < 0 {
+		return false
+	}
+	if constIdxCG == nil || constIdxCG.P != p {
+		constIdxCG = BuildCG(p)
+	}
+	n := 0
+	all := true
+	for _, caller := range constIdxCG.In[fn] {
+		caller := caller
+		eachInstr(caller, func(b *ssa.BasicBlock, _ int, i ssa.Instruction) {
+			call, ok := i.(*ssa.Call)
+			if !ok {
+				return
+			}
+			if f := staticCallee(call); f == nil || unwrapSynthetic(f) != fn || idx >= len(call.Call.Args) {
+				return
+			}
+			n++
+			a := call.Call.Args[idx]
+			if !constIndexGuarded(caller, b, a, k) && !madeHere(a) {
+				all = false
+			}
+		})
+	}
+	return n > 0 && all
+}
+
+// ---------------- C08.R4 (round 3): a constant index into a document array is behind a length test ----------------
+
+// arityValidated: x comes from a validate*ArrayEntry(…, func(a types.Array) bool { return len(a) == n }) call whose
+// validator closure establishes len(a) > k.
+func arityValidated(x ssa.Value, k int64) bool {
+	for _, l := range valueLeaves(x) {
+		ex, ok := l.(*ssa.Extract)
+		if !ok {
+			return false
+		}
+		call, ok := ex.Tuple.(*ssa.Call)
+		if !ok {
+			return false
+		}
+		found := false
+		for _, a := range call.Call.Args {
+			var vf *ssa.Function
+			switch v := a.(type) {
+			case *ssa.MakeClosure:
+				vf, _ = v.Fn.(*ssa.Function)
+			case *ssa.Function:
+				vf = v
+			}
+			if vf == nil || len(vf.Params) != 1 || typeNameOf(vf.Params[0].Type()) != "Array" {
+				continue
+			}
+			eachInstr(vf, func(_ *ssa.BasicBlock, _ int, i ssa.Instruction) {
+				b, ok := i.(*ssa.BinOp)
+				if !ok {
+					return
+				}
+				if lenArgOf(b.X) == nil {
+					return
+				}
+				n, isC := constInt(b.Y)
+				if !isC {
+					return
+				}
+				switch b.Op {
+				case token.EQL, token.GEQ:
+					if n > k {
+						found = true
+					}
+				case token.GTR:
+					if n >= k {
+						found = true
+					}
+				}
+			})
+		}
+		if !found {
+			return false
+		}
+	}
+	return true
+}
+
+// c08ConstIdxTriage: functions whose constant indexes are safe for a reason the rule cannot see (read one by one).
+var c08ConstIdxTriage = map[string]string{
+	"pkg/pdfcpu/model.(*XRefTable).IDFirstElement":               "both callers test len(ctx.ID) == 0 first (read.go setupEncryptionKey, write.go setupEncryption); the array is a field, not a parameter",
+	"pkg/pdfcpu.handleLinearizationParmDict":                     "a[0] follows `if len(a) != 2 && len(a) != 4 { return }` (a disjunction the edge rule does not combine)",
+	"pkg/pdfcpu/validate.validateDestinationArray":               "validateDestinationArrayLength (2 <= len <= 6) is checked before the elements are read",
+	"pkg/pdfcpu/validate.validateDestinationArrayFirstElement":   "called by validateDestinationArray after validateDestinationArrayLength",
+	"pkg/pdfcpu.renderImage":                                     "image rendering runs on validated contexts: validateColorSpaceArray rejects an empty colour space array",
+	"pkg/pdfcpu.renderICCBased":                                  "validated context: an ICCBased colour space array has 2 elements (validateICCBasedColorSpace)",
+	"pkg/pdfcpu.renderIndexed":                                   "validated context: an Indexed colour space array has 4 elements (validateIndexedColorSpace)",
+	"pkg/pdfcpu.renderIndexedArrayCS":                            "validated context: the base colour space array of an Indexed colour space was validated by kind",
+	"pkg/pdfcpu.renderDeviceN":                                   "validated context: Separation has 4, DeviceN 4 or 5 elements (validateSeparationColorSpace / validateDeviceNColorSpace)",
+	"pkg/pdfcpu.createAnnotsArray":                               "sample generator (pdfcpu create demo files): the rectangle is a literal of its caller",
+	"pkg/pdfcpu.createPolyLineAnnotation":                        "sample generator: the rectangle is a literal of its caller",
+	"pkg/pdfcpu.createPolygonAnnotation":                         "sample generator: the rectangle is a literal of its caller",
+	"pkg/pdfcpu.createHighlightAnnotation":                       "sample generator: the rectangle is a literal of its caller",
+	"pkg/pdfcpu.createRedactAnnotation":                          "sample generator: the rectangle is a literal of its caller",
+	"pkg/pdfcpu.createSquigglyAnnotation":                        "sample generator: the rectangle is a literal of its caller",
+	"pkg/pdfcpu.createStrikeOutAnnotation":                       "sample generator: the rectangle is a literal of its caller",
+	"pkg/pdfcpu.createUnderlineAnnotation":                       "sample generator: the rectangle is a literal of its caller",
+	"pkg/pdfcpu.createInkAnnotation":                             "sample generator: the rectangle is a literal of its caller",
+}
+
+func runC08R4(c *Ctx) {
+	p, r := c.P, c.R
+	used := map[string]bool{}
+	for _, fn := range p.Funcs {
+		if !isSubject(fn) {
+			continue
+		}
+		fn := fn
+		fid := FuncID(fn)
+		cnt := map[string]int{}
+		eachInstr(fn, func(b *ssa.BasicBlock, _ int, i ssa.Instruction) {
+			var x, idx ssa.Value
+			switch v := i.(type) {
+			case *ssa.IndexAddr:
+				x, idx = v.X, v.Index
+			case *ssa.Index:
+				x, idx = v.X, v.Index
+			default:
+				return
+			}
+			if typeNameOf(x.Type()) != "Array" {
+				return
+			}
+			k, ok := constInt(idx)
+			if !ok {
+				return
+			}
+			base := fmt.Sprintf("%s[%d]", exprName(x), k)
+			cnt[base]++
+			construct := base
+			if cnt[base] > 1 {
+				construct = fmt.Sprintf("%s#%d", base, cnt[base])
+			}
+			pos := p.Pos(i.Pos())
+			switch {
+			case constIndexGuarded(fn, b, x, k):
+				r.OK("C08.R4", fid, construct, pos, "a dominating comparison of the array's length makes the index valid", true)
+			case madeHere(x):
+				r.OK("C08.R4", fid, construct, pos, "the array is built in this function", false)
+			case arityValidated(x, k):
+				r.OK("C08.R4", fid, construct, pos, "the array comes from a validate…ArrayEntry call whose arity validator establishes the length", true)
+			case constIndexGuardedAtCallers(p, fn, x, k):
+				r.OK("C08.R4", fid, construct, pos, "a parameter: every static call site tests the length (or passes a literal)", true)
+			default:
+				if why, ok := c08ConstIdxTriage[fid]; ok {
+					used[fid] = true
+					r.OK("C08.R4", fid, construct, pos, "triaged: "+why, false)
+					return
+				}
+				r.Bad("C08.R4", fid, construct, pos, "a document-supplied array is indexed with a constant and nothing on the way tests its length: a shorter array (an indirect reference to null dereferences to an empty one) panics with index out of range instead of returning an error")
+			}
+		})
+	}
+	for f := range c08ConstIdxTriage {
+		if !used[f] {
+			r.Note("C08.R4 triage entry %s no longer needed", f)
+		}
+	}
+}
+
+// ---------------- C08.R5 (round 3 seeds): slices of stream content by document offsets are bounded ----------------
+
+// c08ContentSliceTriage: content slicing sites whose bounds come from searches inside the same buffer.
+var c08ContentSliceTriage = map[string]string{
+	"pkg/pdfcpu.removeArtifactsFromPageContents": "beg and end are results of bytes.Index on the same buffer (positions of BMC/EMC operators just found in it)",
+	"pkg/pdfcpu.removeArtifacts":                 "beg and end are results of bytes.Index on the same buffer (positions of BMC/EMC operators just found in it)",
+}
+
+func contentFieldOf(v ssa.Value) string {
+	fp := fieldPath(v)
+	if strings.HasSuffix(fp, "Content") || strings.HasSuffix(fp, "Raw") {
+		return fp
+	}
+	return ""
+}
+
+// lenOfSame: v is len(<the same field path>) (possibly converted).
+func lenOfSame(v ssa.Value, fp string) bool {
+	for {
+		switch x := v.(type) {
+		case *ssa.Convert:
+			v = x.X
+			continue
+		case *ssa.Call:
+			if b, ok := x.Call.Value.(*ssa.Builtin); ok && b.Name() == "len" && len(x.Call.Args) == 1 {
+				return fieldPath(x.Call.Args[0]) == fp
+			}
+		}
+		return false
+	}
+}
+
+func runC08R5(c *Ctx) {
+	p, r := c.P, c.R
+	n := 0
+	for _, fn := range p.Funcs {
+		if !isSubject(fn) {
+			continue
+		}
+		fn := fn
+		fid := FuncID(fn)
+		k := 0
+		eachInstr(fn, func(b *ssa.BasicBlock, _ int, i ssa.Instruction) {
+			sl, ok := i.(*ssa.Slice)
+			if !ok {
+				return
+			}
+			fp := contentFieldOf(sl.X)
+			if fp == "" {
+				return
+			}
+			nonConst := func(v ssa.Value) bool {
+				if v == nil {
+					return false
+				}
+				_, isC := v.(*ssa.Const)
+				return !isC
+			}
+			if !nonConst(sl.Low) && !nonConst(sl.High) {
+				return
+			}
+			k++
+			n++
+			construct := fmt.Sprintf("slice of %s#%d", fp, k)
+			pos := p.Pos(sl.Pos())
+			pr := newC31Prover(fn)
+			pr.pc = nil
+			pr.base = func(v ssa.Value) bool { return lenOfSame(v, fp) }
+			pt := c31Point{b: b}
+			var miss []string
+			if nonConst(sl.High) {
+				if !pr.lep(sl.High, pt) {
+					miss = append(miss, "the upper bound is not compared with len("+fp+")")
+				}
+			}
+			if nonConst(sl.Low) {
+				upperOK := pr.lep(sl.Low, pt)
+				if !upperOK && sl.High != nil {
+					// low <= high with high bounded is as good
+					for _, f := range pr.facts(pt) {
+						if (f.kind == "LE" || f.kind == "LT") && c31Same(f.a, sl.Low) && c31Same(f.b, sl.High) {
+							upperOK = true
+						}
+					}
+				}
+				if !upperOK {
+					miss = append(miss, "the lower bound is not compared with the upper bound or with len("+fp+")")
+				}
+				if !pr.ge0(sl.Low, pt) {
+					miss = append(miss, "the lower bound is not shown to be non-negative")
+				}
+			}
+			switch {
+			case len(miss) == 0:
+				r.OK("C08.R5", fid, construct, pos, "the bounds are behind comparisons with the length of the same buffer (and with each other)", true)
+			case c08ContentSliceTriage[fid] != "":
+				r.OK("C08.R5", fid, construct, pos, "triaged: "+c08ContentSliceTriage[fid], false)
+			default:
+				r.Bad("C08.R5", fid, construct, pos, "a stream's bytes are sliced with offsets that come from the document ("+strings.Join(miss, "; ")+"): an offset beyond the decoded length panics with slice bounds out of range instead of returning an error")
+			}
+		})
+	}
+	if n == 0 {
+		r.Bad("C08.R5", "-", "anchor", "", "UNRESOLVED-ANCHOR: no slice of a stream's Content/Raw with computed bounds found")
+	}
+}
+
+// ---------------- C08.R6 (round 3 seeds): the free-list validator closes the list on every early exit ----------------
+
+// The free list of the cross reference table is a chain through the Offset fields of free entries; every later
+// walker (UndeleteObject, FreeObject, the writer) follows it until it reads 0 and has no other guard. The one
+// place that makes that terminate for a malformed table is validateFreeList: it walks with a visited set and,
+// when the chain leaves the recorded free objects or returns to a visited one, stores 0 into the last entry.
+// The rule: in the visited-set loop of that function every exit that is neither the chain's own end (the header
+// test) nor an error return passes, in the same iteration, a store of the constant 0 through an Offset field.
+func runC08R6(c *Ctx) {
+	p, r := c.P, c.R
+	fn := p.Func("pkg/pdfcpu/model.(*XRefTable).validateFreeList")
+	if fn == nil || len(fn.Blocks) == 0 {
+		r.Bad("C08.R6", "pkg/pdfcpu/model.(*XRefTable).validateFreeList", "anchor", "", "UNRESOLVED-ANCHOR: the free list validator was not found")
+		return
+	}
+	fid := FuncID(fn)
+	isOffsetZeroStore := func(i ssa.Instruction) bool {
+		st, ok := i.(*ssa.Store)
+		if !ok {
+			return false
+		}
+		if n, ok := c31ConstInt(st.Val); !ok || n != 0 {
+			return false
+		}
+		// *e.Offset = 0: the address is the loaded value of a field named Offset
+		ld, ok := st.Addr.(*ssa.UnOp)
+		if !ok || ld.Op != token.MUL {
+			return false
+		}
+		fa, ok := ld.X.(*ssa.FieldAddr)
+		return ok && structField(fa.X.Type(), fa.Field).Name() == "Offset"
+	}
+	errorOnly := func(b *ssa.BasicBlock) bool {
+		// every return reachable from b (including b) is an error return
+		blocks := reachableBlocks(b)
+		blocks[b] = true
+		any := false
+		for bb := range blocks {
+			if len(bb.Instrs) == 0 {
+				continue
+			}
+			if ret, ok := bb.Instrs[len(bb.Instrs)-1].(*ssa.Return); ok {
+				any = true
+				if k, ok := returnErrKind(ret); !ok || k != errNonNil {
+					return false
+				}
+			}
+		}
+		return any
+	}
+	found := 0
+	for _, l := range naturalLoops(fn) {
+		// the visited-set loop: it deletes from a map
+		hasDelete := false
+		for b := range l.blocks {
+			for _, i := range b.Instrs {
+				if call, ok := i.(*ssa.Call); ok {
+					if bi, ok := call.Call.Value.(*ssa.Builtin); ok && bi.Name() == "delete" {
+						hasDelete = true
+					}
+				}
+			}
+		}
+		if !hasDelete {
+			continue
+		}
+		found++
+		closes := map[*ssa.BasicBlock]bool{}
+		for _, b := range fn.Blocks {
+			for _, i := range b.Instrs {
+				if isOffsetZeroStore(i) {
+					closes[b] = true
+				}
+			}
+		}
+		// blocks of the loop reachable from the header in one iteration without passing a closing store
+		open := map[*ssa.BasicBlock]bool{l.header: true}
+		st := []*ssa.BasicBlock{l.header}
+		for len(st) > 0 {
+			b := st[len(st)-1]
+			st = st[:len(st)-1]
+			if closes[b] {
+				continue
+			}
+			for _, s := range b.Succs {
+				if !l.blocks[s] || s == l.header || open[s] {
+					continue
+				}
+				open[s] = true
+				st = append(st, s)
+			}
+		}
+		// leavesOpen: from s (outside the loop) a return that is not an error return is reachable without a closing store
+		leavesOpen := func(s *ssa.BasicBlock) bool {
+			seen := map[*ssa.BasicBlock]bool{s: true}
+			st := []*ssa.BasicBlock{s}
+			for len(st) > 0 {
+				b := st[len(st)-1]
+				st = st[:len(st)-1]
+				if closes[b] {
+					continue
+				}
+				if len(b.Instrs) > 0 {
+					if ret, ok := b.Instrs[len(b.Instrs)-1].(*ssa.Return); ok {
+						if k, ok := returnErrKind(ret); !ok || k != errNonNil {
+							return true
+						}
+					}
+				}
+				for _, n := range b.Succs {
+					if !seen[n] {
+						seen[n] = true
+						st = append(st, n)
+					}
+				}
+			}
+			return false
+		}
+		k := 0
+		for _, b := range fn.Blocks {
+			if !l.blocks[b] || b == l.header {
+				continue
+			}
+			for _, s := range b.Succs {
+				if l.blocks[s] {
+					continue
+				}
+				k++
+				construct := fmt.Sprintf("early exit#%d of the visited-set loop", k)
+				pos := p.Pos(lastPos(b))
+				switch {
+				case errorOnly(s):
+					r.OK("C08.R6", fid, construct, pos, "the exit leads only to error returns", true)
+				case open[b] && !closes[b] && leavesOpen(s):
+					r.Bad("C08.R6", fid, construct, pos, "the free-list walk can leave its visited-set loop here without storing 0 into the last entry's Offset: the chain stays cyclic or dangling and the unguarded walkers (UndeleteObject, FreeObject) never reach the end of the list")
+				default:
+					r.OK("C08.R6", fid, construct, pos, "every path through this exit to a successful return stores 0 through an Offset field (the list is closed at the last valid entry)", true)
+				}
+			}
+		}
+	}
+	if found == 0 {
+		r.Bad("C08.R6", fid, "anchor", p.Pos(fn.Pos()), "UNRESOLVED-ANCHOR: no loop with a visited set (delete from a map) in the free list validator")
 	}
 }
